@@ -27,22 +27,46 @@ def run(ctx):
     vote = ctx.saw(rt.fn(name="vote", self_adt=V))
     resc = ctx.saw(rt.fn(name="rescind", self_adt=V))
 
+    # private helpers of Voter that vote()/drop() delegate to (e.g. `fn set_flag(&self) -> u8 { self.flags.fetch_or(..) }`)
+    by_def = {b.defpath: b for b in rt.all_bodies() if "timeout_coord" in b.defpath}
+
+    def helpers(b):
+        return [(c, by_def[c.defpath]) for c in b.calls if c.defpath in by_def and _suffix_match(c.self_adt, V) and c.name not in ("vote", "rescind")]
+
+    def is_flags_rmw(b, c):
+        return bool(c.args) and ".flags" in describe_operand(b, c.args[0]) and "Atomic" in (c.callee.get("self_ty") or c.defpath)
+
+    def returns_fetch_or(hb):
+        """the helper's return value is the value returned by its fetch_or on flags"""
+        fo = [c for c in hb.calls if c.name == "fetch_or" and is_flags_rmw(hb, c)]
+        return bool(fo) and any(s_[0] == "call" and s_[1] is fo[0] for s_ in hb.sources(["c", [0, []]])) or any(c.dest[0] == 0 and not c.dest[1] for c in fo)
+
+    def sets_voted(hb):
+        sets_ = [c for c in hb.calls if c.name == "set" and ".voted" in describe_operand(hb, c.args[0]) and describe_operand(hb, c.args[1]) == "True"]
+        ok_, _w = hb.must_pass([0], {c.block for c in sets_})
+        return bool(sets_) and ok_
+
     with ctx.rule("C17.R1", "T7", "vote(): one fetch_or; unanimity decided from its returned value; wake before Unanimous; voted := true", floor=4) as r:
-        atom = [c for c in vote.calls if ".flags" in describe_operand(vote, c.args[0]) and "Atomic" in (c.callee.get("self_ty") or c.defpath)]
-        r.check(len(atom) == 1 and atom[0].name == "fetch_or" and describe_operand(vote, atom[0].args[1]).endswith(".flag"), "vote/single-fetch_or", where(vote),
-                "the only access to flags is fetch_or(self.flag)", "vote() accesses flags with %s" % [c.name for c in atom])
+        hs = helpers(vote)
+        atom = [(vote, c) for c in vote.calls if is_flags_rmw(vote, c)] + [(hb, c) for _, hb in hs for c in hb.calls if is_flags_rmw(hb, c)]
+        r.check(len(atom) == 1 and atom[0][1].name == "fetch_or" and describe_operand(atom[0][0], atom[0][1].args[1]).endswith(".flag"), "vote/single-fetch_or", where(vote),
+                "the only access to flags (in vote and the helpers it calls) is fetch_or(self.flag)", "vote() accesses flags with %s" % [c.name for _, c in atom])
+        rmw_helpers = {hc.name for hc, hb in hs if returns_fetch_or(hb)}
         un = ret_blocks(vote, "VoteResult", "Unanimous")
         if not un:
             raise AnchorMissing("vote: no Unanimous return")
         for blk, line in un:
             g = guards(vote, blk)
-            r.check(any(d.startswith("Eq(fetch_or(") and d.endswith(".inverse)") and l == "true" for d, l, _ in g), "vote/unanimity-from-rmw", vote.loc(line),
+            direct = any(d.startswith("Eq(fetch_or(") and d.endswith(".inverse)") and l == "true" for d, l, _ in g)
+            via = any(any(d.startswith("Eq(%s(" % h) for h in rmw_helpers) and d.endswith(".inverse)") and l == "true" for d, l, _ in g)
+            r.check(direct or via, "vote/unanimity-from-rmw", vote.loc(line),
                     "Unanimous is returned on `fetch_or(..) == inverse` (the value observed by the RMW itself)", "Unanimous is not decided from the fetch_or result: %s" % [(d, l) for d, l, _ in g])
             wk = [c for c in vote.calls if c.name == "wake" and ".waker" in describe_operand(vote, c.args[0])]
             r.check(any(vote.dominates(c.block, blk) for c in wk), "vote/wake-before-unanimous", vote.loc(line), "waker.wake() dominates the Unanimous return", "Unanimous returned without waking the receiver")
-        sets = [c for c in vote.calls if c.name == "set" and ".voted" in describe_operand(vote, c.args[0])]
-        ok, wit = vote.must_pass([0], {c.block for c in sets if describe_operand(vote, c.args[1]) == "True"})
-        r.check(ok and bool(sets), "vote/voted:=true", where(vote), "voted.set(true) on every path", "a path of vote() leaves voted unset: %s" % wit)
+        sets = [c for c in vote.calls if c.name == "set" and ".voted" in describe_operand(vote, c.args[0]) and describe_operand(vote, c.args[1]) == "True"]
+        through = {c.block for c in sets} | {hc.block for hc, hb in hs if sets_voted(hb)}
+        ok, wit = vote.must_pass([0], through)
+        r.check(ok and bool(through), "vote/voted:=true", where(vote), "voted.set(true) on every path", "a path of vote() leaves voted unset: %s" % wit)
 
     def rescind_updates():
         """Atomic read-modify-write sites of rescind(): (call, success_edge_block, failure_edge_block, kind)."""
@@ -138,7 +162,11 @@ def run(ctx):
         d = ctx.saw(rt.fn(name="drop", self_adt=V, trait="core::ops::drop::Drop"))
         vs = [c for c in d.calls if c.is_method(V, "vote")]
         if not vs:
-            r.bad("drop/votes", where(d), "Drop for Voter no longer calls vote(): a task that disappears leaves the others waiting for ever")
+            # a helper is as good as vote() only if it also wakes the receiver when it completes the vote
+            alt = [c for c, hb in helpers(d) if any(x.name == "fetch_or" and is_flags_rmw(hb, x) for x in hb.calls)]
+            wakes = [c for c, hb in helpers(d) if any(x.name == "wake" for x in hb.calls)]
+            r.bad("drop/votes", where(d), ("Drop for Voter sets its flag through %s() without the wake-up that vote() performs when the vote becomes unanimous: a receiver that is already waiting is never woken" % alt[0].name) if alt and not wakes
+                  else "Drop for Voter no longer calls vote(): a task that disappears leaves the others waiting for ever")
         for c in vs:
             g = guards(d, c.block)
             r.check(any("get(self.voted)" in dd for dd, l, _ in g), "drop/votes-iff-not-voted", c.loc(), "vote() on the !voted edge (%s)" % [(dd, l) for dd, l, _ in g])
@@ -171,7 +199,9 @@ def run(ctx):
                 continue
             for c in b.calls:
                 if c.args and ".flags" in describe_operand(b, c.args[0]) and "Atomic" in (c.callee.get("self_ty") or c.defpath) and c.name != "load":
-                    r.check(b.defpath.endswith("Voter::vote") or b.defpath.endswith("Voter::rescind"), "flags-writer/" + owner_def(b).split("::")[-1] + "/" + c.name, c.loc(),
+                    callers = [x for x in rt.all_bodies() if "timeout_coord" in x.defpath and "::tests" not in x.defpath and any(y.defpath == b.defpath for y in x.calls)]
+                    private_helper = bool(callers) and all(x.defpath.endswith("Voter::vote") or x.defpath.endswith("Voter::rescind") for x in callers) and "Voter::" in b.defpath
+                    r.check(b.defpath.endswith("Voter::vote") or b.defpath.endswith("Voter::rescind") or private_helper, "flags-writer/" + owner_def(b).split("::")[-1] + "/" + c.name, c.loc(),
                             "flags written in %s" % b.defpath.split("::")[-1], "flags written outside vote/rescind: %s" % b.defpath)
         for adt in (V, "timeout_coord::Receiver"):
             r.check(rt.implements(adt, "core::clone::Clone") is None, adt.split("::")[-1] + "/not-Clone", "-", "%s is not Clone" % adt)
